@@ -1,6 +1,7 @@
 --------------------------- MODULE Trace_SpanState ---------------------------
 (* code -> spec: validates observations recorded from real spans against        *)
-(* SpanModel.  Lines: New{sc,lim} starts a scenario (fresh span, limits lim);   *)
+(* SpanModel.  Lines: New{sc,lim,start} starts a scenario (span created under   *)
+(* limits lim by Start(start.attrs, start.links));                              *)
 (* Ops{sc,ops,obs} applies the logged abstract operations and compares the      *)
 (* model state with the logged projection of the exported span.                 *)
 EXTENDS SpanModel, TraceKit
@@ -21,14 +22,19 @@ AttrsMatch(o, m) ==
 Match(o, m) ==
   /\ AttrsMatch(o.attrs, m.attrs)
   /\ o.dropped = m.dropped
-  /\ o.events = m.events /\ o.evDropped = m.evDropped
+  /\ Len(o.events) = Len(m.events) /\ o.evDropped = m.evDropped
+  /\ \A i \in 1..Len(m.events) :
+        /\ o.events[i].name = m.events[i].name /\ o.events[i].ts = m.events[i].ts
+        /\ o.events[i].d = m.events[i].d
+        /\ (o.events[i].ks = m.events[i].ks \/ o.events[i].ks = m.events[i].ks2)
   /\ o.links = m.links /\ o.lkDropped = m.lkDropped
   /\ o.code = m.code /\ o.desc = m.desc /\ o.name = m.name /\ o.ended = m.ended
 
 Init == l = 1 /\ lim = [ac |-> -1, vl |-> -1, ec |-> -1, lc |-> -1, pe |-> -1, pl |-> -1] /\ st = Empty /\ ok = TRUE
 
 TNew == /\ l <= Len(Trace) /\ Trace[l].ev = "New"
-        /\ lim' = Trace[l].lim /\ st' = Empty /\ ok' = TRUE /\ l' = l + 1
+        /\ lim' = Trace[l].lim /\ st' = Start(Trace[l].lim, Trace[l].start.attrs, Trace[l].start.links)
+        /\ ok' = TRUE /\ l' = l + 1
 
 TOps == /\ l <= Len(Trace) /\ Trace[l].ev = "Ops"
         /\ LET m == ApplyAll(lim, st, Trace[l].ops) IN
@@ -44,5 +50,5 @@ Next == TNew \/ TOps \/ TDone
 Spec == Init /\ [][Next]_vars
 
 (* the model-side statement holds at every step of every real trace *)
-Inv == KeysUnique(st) /\ CountBound(lim, st) /\ NoInvalidKey(st) /\ LengthBound(lim, st) /\ DescOnlyForError(st)
+Inv == KeysUnique(st) /\ CountBound(lim, st) /\ NoInvalidKey(st) /\ LengthBound(lim, st) /\ DescOnlyForError(st) /\ NoIgnorableLink(st)
 =============================================================================
